@@ -71,3 +71,19 @@ Theorem quadratic_group_gradient_sparse_eq_dense :
   = @QuadraticGroup_gradient_g R _ grp_ptr grp_indices X y w Xw g.
 Proof. exact QuadraticGroup_gradient_g_sparse_eq_dense. Qed.
 Print Assumptions quadratic_group_gradient_sparse_eq_dense.
+
+(* Logistic datafit (regenerated): value = documented mean of log(1 + exp(-y z)) and never fails; raw_grad = its exact
+   derivative w.r.t. the linear predictor; derivative along any direction x of the linear predictor *)
+Require Import SK.Lemmas.DfLogistic.
+Theorem logistic_value_is_documented_loss : forall y w z, y <> nil -> length y = length z ->
+  @Logistic_value R _ y w z = Ok (logistic_doc y z).
+Proof. exact Logistic_value_doc. Qed.
+Print Assumptions logistic_value_is_documented_loss.
+Theorem logistic_raw_grad_is_derivative : forall y z, y <> nil -> length y = length z ->
+  @Logistic_raw_grad R _ y z = Ok (map (fun r => r / nR y) (vmap2 llog' y z)).
+Proof. exact Logistic_raw_grad_spec. Qed.
+Print Assumptions logistic_raw_grad_is_derivative.
+Theorem logistic_directional_derivative : forall y z x, length y = length z -> length x = length z -> y <> nil ->
+  is_derive (fun t => logistic_doc y (zline z x t)) 0 (rsum (vmap2 Rmult x (vmap2 llog' y z)) / nR y).
+Proof. exact Logistic_directional_derivative. Qed.
+Print Assumptions logistic_directional_derivative.
